@@ -7,17 +7,17 @@ Import ListNotations.
 Open Scope Z_scope.
 
 (* utils.scale_raw(val, shift): val * 2**shift on an int64/uint64 code array; Python integers
-   when a scaled code reaches 2^63; a float64 array when the factor 2**shift is a float.
-   (For codes of more than 53 bits and a negative shift the code returns exact rationals
-   instead of a float64 array: that region is outside the domain of every theorem here —
-   core formats have |code| < 2^52 — and is not modelled; the harness compares it with the
-   exact Spec only.) *)
+   when a scaled code reaches 2^63; for a negative shift a float64 array (the factor 2**shift is a
+   float) unless some code has more than 53 bits (utils.needs_exact_scale): then every code becomes
+   the exact rational code * Fraction(1, 1 << -shift), which set_val rounds once. *)
 Definition scale_raw (codes : list Z) (shift : Z) : arr :=
   if 0 <? shift then
     (if existsb (fun c => 2^63 <=? Z.abs c * 2^shift) codes
      then AObj (map (fun c => NI (c * 2^shift)) codes)
      else AI64 (map (fun c => c * 2^shift) codes))
   else if shift =? 0 then AI64 codes
+  else if existsb (fun c => 2^53 <=? Z.abs c) codes
+  then AObj (map (fun c => NR {| dm := c; de := shift |}) codes)
   else AF64 (map (fun c => f64_mul_pow2 (f64_of_Z c) shift) codes).
 
 (* which vdtype set_val casts the rescaled raw value to:
